@@ -58,7 +58,7 @@ def layouts(N, tier, seed):
             for dt in dts:
                 k += 1
                 yield {'backend': 'flat', 'ext': L.FLAT_EXT[k % 4], 'offset': OFFSETS[(k // 3) % 4],
-                       'dtype': dt, 'nc': NCS[(k // 2) % 4], 'parts': parts, 'relative': k % 9 == 4}
+                       'dtype': dt, 'nc': NCS[(k // 2) % 4], 'parts': parts, 'relative': k % 9 == 4, 'symlink': k % 9 == 7}
         for j, parts in enumerate(L.compositions(n)):
             if j % 3 == n % 3:
                 k += 1
@@ -79,6 +79,18 @@ def run_shard(desc, ctx):
     for i, lay in enumerate(layouts(desc['N'], desc['tier'], desc['seed'])):
         if i % desc['n'] == desc['shard']:
             run_case(dict(lay, items='all', cols='all'), ctx)
+    # long recordings: index arrays of >= 1024 entries that include the first / last row of every file
+    sh = desc['shard']
+    parts = [[700, 500, 900], [1024, 1024], [1, 1500, 2, 600], [2048]][sh % 4]
+    n_ = sum(parts)
+    b_ = np.r_[0, np.cumsum(parts)]
+    rngl = np.random.default_rng([desc['seed'], sh, 101])
+    keep = np.sort(rngl.permutation(n_)[:max(1100, n_ // 2)])
+    edge = np.unique(np.clip(np.r_[b_[:-1], b_[1:] - 1, b_[1:-1] + 1], 0, n_ - 1))
+    long_items = [np.arange(n_), np.unique(np.r_[keep, edge]), np.setdiff1d(keep, edge), np.arange(0, n_, 2)[:1024], np.arange(1, n_, 2)[:1023],
+                  np.unique(np.r_[keep, edge]).astype(np.int32), slice(None), slice(int(b_[1]) - 3 if len(parts) > 1 else 5, None), -1, int(b_[-2])]
+    run_case({'backend': 'flat' if sh % 8 < 6 else 'npy', 'ext': L.FLAT_EXT[sh % 4], 'offset': OFFSETS[sh % 4], 'dtype': DTYPES[sh % 6], 'nc': 2,
+              'parts': parts if sh % 8 < 6 else [n_], 'items': long_items, 'cols': [None, [1, 0]]}, ctx)
     if desc['tier'] == 'thorough':
         rng = np.random.default_rng([desc['seed'], desc['shard'], 1])
         for r in range(40):
@@ -179,6 +191,17 @@ def open_layout(lay, d):
     be = lay['backend']
     if be == 'flat':
         paths = L.write_flat(d, A, lay['parts'], offset=lay['offset'], ext=lay['ext'])
+        if lay.get('symlink'):
+            # the sorting folder holds links to raw data stored elsewhere
+            import os
+            from pathlib import Path
+            links = []
+            os.makedirs(os.path.join(d, 'links'), exist_ok=True)
+            for p in paths:
+                lk = Path(d) / 'links' / p.name
+                os.symlink(p, lk)
+                links.append(lk)
+            paths = links
         arg = paths if (len(paths) > 1 or n % 2) else paths[0]
         if lay.get('relative'):
             # environment: files named relative to the working directory, which changes before the first read;
@@ -303,6 +326,32 @@ def _run(case, ctx, d):
             if dd:
                 ctx.violation('read_mismatch', sub, 'reader[%r%s]: %s' % (
                     it, '' if cols is None else ', %r' % (cols,), dd), f2)
+    # a channel selection on top of the lazy whole-recording channel selection: reader[:, c1][rows, c2]
+    if lay['cols'] == 'all':
+        sels = [c for c in cols_l if c is not None] + [slice(1, None)]
+        row_items = [x for x in items if isinstance(x, (slice, int))][:4] + [x for x in items if isinstance(x, list)][:1]
+        for c1 in sels:
+            w1 = A[:, c1].shape[1]
+            if w1 == 0:
+                continue
+            r1 = call(lambda: rd[:, c1])
+            if not r1.ok or isinstance(r1.value, np.ndarray):
+                continue
+            for c2 in [slice(None, None, -1), slice(1, None), slice(0, max(1, w1 - 1)), [w1 - 1, 0], [-1]]:
+                for it in row_items:
+                    e_rows = A[it] if not isinstance(it, (int, np.integer)) else A[int(it)][None, :]
+                    exp = e_rows[:, c1][:, c2]
+                    if exp.shape[1] == 0:
+                        continue
+                    ctx.count(1, cell=(be, lay['dtype'], 'chained_cols'))
+                    rr = call(lambda: r1.value[it, c2])
+                    if rr.ok and not isinstance(rr.value, np.ndarray):
+                        rr = call(lambda v=rr.value: v[:])        # (all rows: again the lazy form)
+                    if not rr.ok or same(rr.value, exp):
+                        ctx.violation('read_mismatch' if rr.ok else 'read_raised', dict(lay, items=[it], cols=[c1, c2]),
+                                      'reader[:, %r][%r, %r]: %s' % (c1, it, c2, rr.exc if not rr.ok else same(rr.value, exp)),
+                                      dict(feats, chained_cols=True), tb=rr.tb)
+                        break
     # aliasing: blocks returned earlier are modified in place by the caller; later reads must not see that
     for it in [x for x in items if isinstance(x, (slice, int))][:6]:
         rr = call(lambda: rd[it])
